@@ -736,6 +736,16 @@ func (fe *FnEnc) execInstr(st *State, ins ssa.Instruction) {
 	}
 }
 
+// countKey: ghost iteration counter of a map range
+type countKey struct{ r *ssa.Range }
+
+func (countKey) Name() string                  { return "count" }
+func (countKey) String() string                { return "count" }
+func (countKey) Type() types.Type              { return nil }
+func (countKey) Parent() *ssa.Function         { return nil }
+func (countKey) Referrers() *[]ssa.Instruction { return nil }
+func (countKey) Pos() token.Pos                { return token.NoPos }
+
 type deferKey struct{ d *ssa.Defer }
 
 func (deferKey) Name() string                  { return "defer" }
@@ -1230,6 +1240,7 @@ func (fe *FnEnc) execRange(st *State, x *ssa.Range) {
 		m := fe.getT(st, x.X)
 		ks := fe.sorts.sortOf(t.Key())
 		fe.setGhost(st, x, Term{"((as const " + arrSort(ks, sBool) + ") false)", arrSort(ks, sBool)})
+		fe.setGhost(st, countKey{x}, tInt(0))
 		fe.setReg(x, RV{Iter: &IterInfo{rng: x, m: m, mapT: t}})
 	default:
 		fe.unsupported("range over string")
@@ -1268,6 +1279,26 @@ func (fe *FnEnc) execNext(st *State, x *ssa.Next) {
 		fe.assumeWF(st, mt.Key(), k)
 	}
 	fe.setGhost(st, it.rng, tIte(ok, tStore(vis, k, tTrue), vis))
+	if cnt, okc := st.ghost[countKey{it.rng}]; okc {
+		// number of iterations so far; when the loop does not change the map's key set, it ends after len(m) iterations
+		if !fe.dry {
+			modifiesDom := false
+			dn := compMapDom(ks, fe.sorts.sortOf(mt.Elem()))
+			for _, l := range fe.loops {
+				if l.blocks[x.Block()] {
+					if _, w := l.writes.comps[dn]; w || l.writes.all {
+						modifiesDom = true
+					}
+				}
+			}
+			if !modifiesDom {
+				_, _, card, _, _ := fe.mapComps(st, mt, false)
+				fe.assume(st, tImp(tNot(ok), tEq(cnt, tIte(tEq(it.m, tInt(0)), tInt(0), tSel(card, it.m)))))
+				fe.assume(st, tImp(ok, tCmp("<", cnt, tSel(card, it.m))))
+			}
+		}
+		fe.setGhost(st, countKey{it.rng}, tIte(ok, tArith("+", cnt, tInt(1)), cnt))
+	}
 	fe.assumed["map iteration visits every key present when the loop ends (no insertion during iteration)"] = true
 	fe.setReg(x, RV{Tuple: []RV{{T: ok, Valid: true}, {T: k, Valid: true, Typ: mt.Key()}, {T: v, Valid: true, Typ: mt.Elem()}}})
 }
@@ -1337,6 +1368,9 @@ func (fe *FnEnc) execDeferred(st *State, d *ssa.Defer, args []RV) {
 func valueOrder(v ssa.Value) string {
 	if dk, ok := v.(deferKey); ok {
 		return fmt.Sprintf("d%09d", int(dk.d.Pos()))
+	}
+	if ck, ok := v.(countKey); ok {
+		return valueOrder(ck.r) + "c"
 	}
 	n := v.Name()
 	if len(n) > 1 && n[0] == 't' {
